@@ -32,7 +32,7 @@ def bbView (rc : Rc) (b : ByteBuffer) (out : List Octet) (full : Bool) : String 
   if full then base ++ s!" full={hexOf b.mem}" else base
 
 def fifoView (rc : Rc) (f : Fifo) (out : List Octet) : String :=
-  s!"{rcStr rc} out={hexOf out} unread={hexOf f.unread} avail={f.cap - f.filled.length}"
+  s!"{rcStr rc} out={hexOf out} unread={hexOf f.unread} avail={f.cap - f.filled.length} rest={f.unread.length}"
 
 def bbOp (s : State) (op : Op) (full := false) : State × String :=
   let (b', o) := step s.bb op
@@ -63,7 +63,7 @@ def ringOp (s : State) (op : Ufw.Model.Ring.Op) : State × String :=
   let (q', so) := Ufw.Spec.Queue.step s.q op
   ({ s with ring := c', q := q' }, ringView (outStr o) c' ++ " ## " ++ queueView (outStr so) q')
 
-def stepLine (s : State) (toks : List String) : State × String :=
+def stepLine1 (s : State) (toks : List String) : State × String :=
   match toks with
   | ["bb.null"] => ({ s with bb := byte_buffer_null, fifo := ⟨0, [], 0⟩ }, "ok")
   | ["bb.set", mem, size, used, off] =>
@@ -103,6 +103,13 @@ def stepLine (s : State) (toks : List String) : State × String :=
   | ["rb.clear"] => ringOp s .clear
   | ["rb.ovr", b] => ringOp s (.override (b == "1"))
   | _ => (s, "bad-op")
+
+/-- `byte_buffer_space` / `byte_buffer_use` are `byte_buffer_set` with nothing / everything filled -/
+def stepLine (s : State) (toks : List String) : State × String :=
+  match toks with
+  | ["bb.space", mem, size] => stepLine1 s ["bb.set", mem, size, "0", "0"]
+  | ["bb.use", mem, size] => stepLine1 s ["bb.set", mem, size, size, "0"]
+  | _ => stepLine1 s toks
 
 end Driver.Buffers
 
